@@ -308,7 +308,7 @@ def c08(tier):
     for i in range(n):
         p = rnd.choice(pool)
         d = rnd.choice([1, 2, 2, 3, 3] + ([4] if full else []))
-        plan.append(plan_line(p["fen"], "depth %d" % d, tt="fresh" if i % 3 == 0 else "warm", tag="ann"))
+        plan.append(plan_line(p["fen"], "depth %d" % d, tt="fresh" if i % 25 == 0 else "warm", tag="ann"))
         if i % 10 == 0:
             plan.append(plan_line(p["fen"], "depth %d" % min(d + 1, 4), tt="warm", tag="ann"))
     viols, cnt, info, sh = run_plan(ck, exe, plan, "m", filt="mate", keep_every=400 if full else 150, mate_maxn=3 if full else 2, timeout=6000)
